@@ -1,7 +1,7 @@
 #!/bin/sh
 # tools/seed_confirm.sh <seed-out-dir> <prop> <k> : confirm a seeded change in a scratch worktree:
 # demo passes without / fails with the patch, and the pinned test suite still passes with the patch.
-SRC="$1"; P="$2"; K="$3"
+SRC="$1"; P="$2"; K="$3"; FEAT="$4"   # FEAT: e.g. "--features verif" when the demonstration needs the hooks
 WT=/tmp/wt-seedconfirm
 export CARGO_NET_OFFLINE=true
 [ -d "$WT" ] || git -C /repo worktree add --detach "$WT" HEAD >/dev/null 2>&1 || exit 2
@@ -9,9 +9,9 @@ git -C "$WT" checkout -q --detach "$(git -C /repo rev-parse HEAD)"; git -C "$WT"
 NAME=seed_$(echo $P | tr A-Z a-z)_$K
 cp "$SRC/demo.rs" "$WT/tests/$NAME.rs"
 cd "$WT" || exit 2
-cargo test --offline --test $NAME > /tmp/sc_without.log 2>&1; W0=$?
+cargo test --offline $FEAT --test $NAME > /tmp/sc_without.log 2>&1; W0=$?
 git apply "$SRC/patch.diff" || { echo "RESULT $P/$K patch-does-not-apply"; exit 1; }
-cargo test --offline --test $NAME > /tmp/sc_with.log 2>&1; W1=$?
+cargo test --offline $FEAT --test $NAME > /tmp/sc_with.log 2>&1; W1=$?
 rm -f target/nextest/pb/junit.xml
 cargo nextest run --workspace --no-fail-fast --tool-config-file pb:/w/lib/nextest.toml --profile pb --test-threads 8 --offline > /tmp/sc_suite.log 2>&1
 MISSING=$(python3 - <<'PY'
